@@ -360,6 +360,18 @@ theorem class_lookup_finds (d : DexV) (c : ClassV) (hc : c ∈ d.classes) :
 theorem method_by_idx (d : DexV) (i : Nat) (m : MethodV) (h : getEncodedMethodByIdx d i = some m) :
     m ∈ allMethods d ∧ m.idx = i := dictGet_some MethodV.idx i _ m h
 
+/-- end to end: on a file that encodes well-formed tables, looking a declared method up by its
+    (class, name, descriptor) returns exactly that method (distinct triples, as in a valid file);
+    same for fields -/
+theorem lookup_on_file (file : Bytes) (L : Layout) (T : Tables) (hwf : WF T L) (henc : Encodes file L T)
+    (hd : ((allMethods (declared T L)).map MethodV.triple).Nodup)
+    (hf : ((allFields (declared T L)).map FieldV.triple).Nodup) :
+    ∃ d, parseDex file = .ok d ∧
+      (∀ m ∈ allMethods (declared T L), getEncodedMethodDescriptor d m.cls m.name m.desc = some m) ∧
+      (∀ f ∈ allFields (declared T L), getEncodedFieldDescriptor d f.cls f.name f.typ = some f) :=
+  ⟨_, (parse_encode file L T hwf henc).2.2, fun m hm => method_lookup_exact _ hd m hm,
+    fun f hm => field_lookup_exact _ hf f hm⟩
+
 /-! ### the string-concatenation key of the unfixed code -/
 
 /-- a class descriptor `L…;`, a member name without `;` and `(`, a method descriptor `(…` -/
@@ -458,6 +470,8 @@ example : build Example.T2 Example.L2 Example.size2 ≠ Example.file ∧
   refine ⟨Example.other_file, ?_⟩
   rw [parse_build _ _ _ Example.wf2 Example.consistent2 Example.itemsOk2,
     (parse_encode _ _ _ Example.wf Example.encodes).2.2, Example.same_view]
+example : ((allMethods (declared Example.T Example.L)).map MethodV.triple).Nodup ∧
+    ((allFields (declared Example.T Example.L)).map FieldV.triple).Nodup := by decide +kernel
 /-- … and what it declares is not trivial -/
 example : (declared Example.T Example.L).classes.map (fun c => [c.name, c.super] ++ c.ifaces ++ c.src.toList) =
     [[ascii "LFoo;", ascii "Ljava/lang/Object;", ascii "Ljava/lang/Runnable;", ascii "Foo.java"]] := by decide +kernel
